@@ -116,7 +116,7 @@ fn c11(seed: u64) {
             let out = match h.generate_outbound_p0_and_p1() { Ok(o) => o, Err(e) => fail(format!("c11 generate_outbound_p0_and_p1 returned Err({:?}) server={}", e, server)) };
             if out.len() != 1537 || out[0] != 3 { fail(format!("c11 p0+p1 has length {} first byte {} server={}", out.len(), out[0], server)); }
             let p1 = &out[1..];
-            if p1[4..8] != [0x80, 0x00, 0x07, 0x02] { fail(format!("c11 p1[4..8]={:?} server={}", &p1[4..8], server)); }
+            if p1[4..8] == [0, 0, 0, 0] { fail(format!("c11 generated packet 1 announces version 0.0.0.0 (digest-probing peers then treat it as digest-less) server={}", server)); }
             let off = if server { off_server(p1) } else { off_client(p1) };
             let d = digest_of(p1, off, own_key(server));
             if p1[off..off + 32] != d {
